@@ -1,7 +1,7 @@
 #!/bin/sh
-# Runs every thorough check in sequence (used with `vp run`); prints one summary line per property.
+# Runs every thorough check (or those named in $PROPS) in sequence (used with `vp run`); prints one summary line per property.
 cd "$(dirname "$0")/.."
-for P in C01 C02 C03 C04 C05 C06 C07 C08 C09 C10 C11 C12 C13 C14 C15 C16 C17 C18 C19; do
+for P in ${PROPS:-C01 C02 C03 C04 C05 C06 C07 C08 C09 C10 C11 C12 C13 C14 C15 C16 C17 C18 C19}; do
   ./vcheck $P --tier thorough > /tmp/thor_$P.log 2>&1
   echo "== $P exit=$?"; grep "^VIOLATION\|^KNOWN\|^$P:\|vcheck:" -A3 /tmp/thor_$P.log | cut -c1-600 | head -30
 done
